@@ -65,6 +65,14 @@ func (s c04Sig) ret() string {
 	return "(" + strings.Join(ps, ", ") + ",)"
 }
 
+// body is the function body: the result is built first, then the function's own **k is mutated (the caller's mapping must not see it)
+func (s c04Sig) body(ind string) string {
+	if s.dstar {
+		return ind + "r = " + s.ret() + "\n" + ind + "r[-1]['mut'] = 1\n" + ind + "return r\n"
+	}
+	return ind + "return " + s.ret() + "\n"
+}
+
 // switchName returns the generator switch that covers this signature's known-finding cell ("" = none).
 func (s c04Sig) switchName() string {
 	// kw-only parameter without default followed by one with default
@@ -122,7 +130,61 @@ func c04Calls() []string {
 			}
 		}
 	}
+	// keywords spelled like the function's own *a and **k parameters: they are not parameters, so they go to **k (or are unexpected)
+	for np := 0; np <= 2; np++ {
+		for _, extra := range []string{"a=96", "k=97", "a=96, k=97", "p1=50, a=96", "**{'a': 96}", "**{'k': 97, 'a': 98}", "a=96, **{'k': 97}"} {
+			for _, sq := range seqs {
+				var args []string
+				for i := 0; i < np; i++ {
+					args = append(args, fmt.Sprint(i+1))
+				}
+				if strings.HasPrefix(extra, "**") {
+					if sq != "" {
+						args = append(args, sq)
+					}
+					args = append(args, extra)
+				} else if i := strings.Index(extra, ", **"); i >= 0 {
+					args = append(args, extra[:i])
+					if sq != "" {
+						args = append(args, sq)
+					}
+					args = append(args, extra[i+2:])
+				} else {
+					args = append(args, extra)
+					if sq != "" {
+						args = append(args, sq)
+					}
+				}
+				out = append(out, strings.Join(args, ", "))
+			}
+		}
+	}
 	return out
+}
+
+// c04CallLine renders one call of callee. The *seq and **map arguments are passed as named containers S and M, which are
+// reported after the call together with the result: the callee mutates its own **k (and cannot mutate *a), and neither
+// container of the caller may change or be aliased by what the callee received.
+func c04CallLine(callee, cl string) string {
+	pre := ""
+	if i := strings.Index(cl, "**{"); i >= 0 {
+		pre += "M = " + cl[i+2:] + "\n"
+		cl = cl[:i] + "**M"
+	} else {
+		pre += "M = None\n"
+	}
+	if i := strings.Index(cl, "*["); i >= 0 {
+		j := strings.Index(cl[i:], "]") + i + 1
+		pre += "S = " + cl[i+1:j] + "\n"
+		cl = cl[:i] + "*S" + cl[j:]
+	} else if i := strings.Index(cl, "*("); i >= 0 {
+		j := strings.Index(cl[i:], ")") + i + 1
+		pre += "S = " + cl[i+1:j] + "\n"
+		cl = cl[:i] + "*S" + cl[j:]
+	} else {
+		pre += "S = None\n"
+	}
+	return pre + "c(lambda: (" + callee + "(" + cl + "), S, M))\n"
 }
 
 const c04Prelude = `_res = []
@@ -186,21 +248,21 @@ func TestC04(t *testing.T) {
 			var def, callee string
 			switch form {
 			case 0:
-				def = "def f(" + s.params() + "):\n    return " + s.ret() + "\n"
+				def = "def f(" + s.params() + "):\n" + s.body("    ")
 				callee = "f"
 			case 1:
 				p := s.params()
 				if p != "" {
 					p = ", " + p
 				}
-				def = "class K:\n    def m(self" + p + "):\n        return " + s.ret() + "\nf = K().m\n"
+				def = "class K:\n    def m(self" + p + "):\n" + s.body("        ") + "f = K().m\n"
 				callee = "f"
 			case 2:
 				def = "f = lambda " + s.params() + ": " + s.ret() + "\n"
 				callee = "f"
 			case 3:
 				// decorated: the decorator expressions are evaluated before the defaults, and the function object they get is complete
-				def = "def ident(fn):\n    return fn\n@ident\n@ident\ndef f(" + s.params() + "):\n    return " + s.ret() + "\n"
+				def = "def ident(fn):\n    return fn\n@ident\n@ident\ndef f(" + s.params() + "):\n" + s.body("    ")
 				callee = "f"
 			case 5:
 				// every parameter is captured by an inner scope: the arguments are bound into cells
@@ -208,13 +270,13 @@ func TestC04(t *testing.T) {
 				callee = "f"
 			default:
 				// decorated by a wrapper that forwards *a, **k
-				def = "def fwd(fn):\n    def w(*a, **k):\n        return fn(*a, **k)\n    return w\n@fwd\ndef f(" + s.params() + "):\n    return " + s.ret() + "\n"
+				def = "def fwd(fn):\n    def w(*a, **k):\n        r = fn(*a, **k)\n        k['mutw'] = 1\n        return r\n    return w\n@fwd\ndef f(" + s.params() + "):\n" + s.body("    ")
 				callee = "f"
 			}
 			var sb strings.Builder
 			sb.WriteString(c04Prelude + def)
 			for _, cl := range calls {
-				sb.WriteString("c(lambda: " + callee + "(" + cl + "))\n")
+				sb.WriteString(c04CallLine(callee, cl))
 			}
 			d, err := PyDiff(sb.String(), PyDiffOpts{Vars: c04Vars})
 			if err != nil {
@@ -230,7 +292,7 @@ func TestC04(t *testing.T) {
 				if d.Index >= 0 && d.Index < len(calls) {
 					cl = calls[d.Index]
 				}
-				prog := c04Prelude + def + "c(lambda: " + callee + "(" + cl + "))\n"
+				prog := c04Prelude + def + c04CallLine(callee, cl)
 				kind := "value"
 				if d.Expected == encStr("TypeError") {
 					kind = "accepts-bad-call"
